@@ -90,9 +90,10 @@ class Conduct(core.Scenario):
                 srv.append(core.Action('GET<-' + name, fire, lambda s: en_get(s) and s.world.client.state == 'connected'))
         self.last_answer = 0.0
         app = []
+        self.send_calls = {}
         for i in range(p['nsend']):
             def fire(s, i=i):
-                s.world.call('send', SENDS[i])
+                s.send_calls[i] = (s.world.nstep, s.world.call('send', SENDS[i]))
             app.append(core.Action('send#%d' % i, fire, lambda s: s.conn.done and not s.conn.exc))
         self.scripts = [srv, app, []]
 
@@ -181,10 +182,33 @@ class Conduct(core.Scenario):
         # ---- application sends: once, in order, right encoding on the transport in use
         sent = [(ch, d, k) for ch, t, d, k in out if t == 4]
         want = SENDS[:p['nsend']]
-        if len(sent) != len(want) or not all(codec.payload_equal(bytes(a[1]) if isinstance(a[1], (bytes, bytearray)) else a[1], b)
-                                              for a, b in zip(sent, want)):
+
+        def norm(x):
+            return bytes(x) if isinstance(x, (bytes, bytearray)) else x
+        # exactly once each
+        pos = {}
+        pool = list(enumerate(want))
+        okm = len(sent) == len(want)
+        for idx, (ch, d, k) in enumerate(sent):
+            for j, (i, wv) in enumerate(pool):
+                if codec.payload_equal(norm(d), wv):
+                    pos[i] = idx
+                    del pool[j]
+                    break
+            else:
+                okm = False
+        if not okm or pool:
             self.flag('sends_wrong', 'server received messages %r, application sent %r' % (sent, want), trigger=trig)
-        for (ch, d, k), orig in zip(sent, want):
+        else:
+            # order is owed between sends where the earlier call had returned before the later one was issued
+            for i in range(len(want)):
+                for j in range(i + 1, len(want)):
+                    ci, cj = self.send_calls.get(i), self.send_calls.get(j)
+                    if ci and cj and ci[1].done and ci[1].step_done is not None and ci[1].step_done <= cj[0] and pos[i] > pos[j]:
+                        self.flag('sends_wrong', 'server received %r: send #%d overtook send #%d although #%d had returned first'
+                                  % (sent, j, i, i), trigger=trig)
+        ordered = [sent[pos[i]] for i in range(len(want))] if okm and not pool else []
+        for (ch, d, k), orig in zip(ordered, want):
             if isinstance(orig, (bytes, bytearray)):
                 if ch == 'websocket' and k != 'binary':
                     self.flag('binary_not_binary_frame', 'bytes payload went out as %s on WebSocket' % k, trigger=trig)
